@@ -217,6 +217,22 @@ def shape_cases():
     return out
 
 
+def wide_cases():
+    """fault-free definitions with many fields (nothing in the property limits the number of fields)"""
+    out = []
+    d = "#[derive(Encode, Decode)]\n"
+    for n in (26, 27, 138, 139, 140, 255, 256, 257, 300, 700):
+        tys = ", ".join("u8" for _ in range(n))
+        out.append(Case(f"tuple variant with {n} fields", d + f"pub enum Wt{n} {{ A({tys}), B }}", False))
+    mixed = ", ".join(("#[codec(compact)] u32" if i % 7 == 3 else "#[codec(skip)] u16" if i % 11 == 5 else "u8") for i in range(300))
+    out.append(Case("tuple variant with 300 fields, some compact / skipped", d + f"pub enum Wm300 {{ #[codec(index = 9)] A({mixed}) }}", False))
+    named = ", ".join(f"f{i}: u8" for i in range(300))
+    out.append(Case("named variant with 300 fields", d + f"pub enum Wn300 {{ A {{ {named} }} }}", False))
+    out.append(Case("named struct with 300 fields", d + f"pub struct Ws300 {{ {named} }}", False))
+    out.append(Case("tuple struct with 300 fields", d + "pub struct Wu300(" + ", ".join("u8" for _ in range(300)) + ");", False))
+    return out
+
+
 # ---------------------------------------------------------------------------------------------
 # crate assembly and judgement
 
@@ -310,7 +326,7 @@ def run(pid, tier, seed, total, chk, dr):
     # ---- batch 2: expansion class (attribute conflicts, unions, CompactAs shapes, variant count) and twins
     pairs = conflict_cases() + shape_cases()
     faulty = [f for f, _ in pairs]
-    twins = [t for _, t in pairs]
+    twins = [t for _, t in pairs] + wide_cases()
     suspects += judge_crate(pid, "c17_exp_faulty", faulty, total, chk, dr, "expansion-faulty")
     suspects += judge_crate(pid, "c17_exp_twins", twins, total, chk, dr, "expansion-twins", expect_clean=True)
     all_cases = cases + faulty + twins
